@@ -330,7 +330,7 @@ def strictIdsB : List Op → Bool
 def refsSmallerB (ops : List Op) : Bool :=
   ops.all (fun o => !o.insert || (match o.key with | .elem e => e.lt o.id | _ => true))
 
-/-- `WF`: distinct ids, an element is created after its reference element and updated after it is
+/-- `OpsWF`: distinct ids, an element is created after its reference element and updated after it is
     created, one kind of key per object, inserts are keyed on elements, only inserts on HEAD -/
 def wfB (ops : List Op) : Bool :=
   strictIdsB ops && refsSmallerB ops &&
